@@ -1481,7 +1481,9 @@ def run(chk: core.Check):
     chk.rule = ("tables generated from the seeded rng: every row permutation of small visit / event / joint / covariate tables (<= 5 rows), "
                 "random shuffles of larger ones, nine valid and eleven invalid identifier kinds, ages k/64 (exact in float32) plus "
                 "non-exact and sub-micro-perturbed ages, values n/16 including 0 and NaN; a malformed stream (duplicates, near-duplicates below 1e-6, "
-                "nan/inf ages and values, non-numeric columns, inconsistent events / covariates) and schema-level cases; every order and split of "
+                "nan/inf ages and values, non-numeric columns, inconsistent events / covariates), joint tables whose event lies between the last-listed and "
+                "the latest visit of its individual (every row order), covariates that differ on one row of an individual (every row order), tables "
+                "with two malformations at once (rejection reason compared with the model's tag) and schema-level cases; every order and split of "
                 "add_observations calls on <= 4 ages. Each case runs from_dataframe -> Dataset -> to_pandas -> re-ingest on the real code with a deep "
                 "snapshot of the caller's table, evaluates the property predicate, and is compared with the Lean model. "
                 "Non-trivial = refused table, or >= 2 rows with a repeated or unsorted identifier; distinct by full table.")
